@@ -332,6 +332,75 @@ namespace
     struct BListSum { static constexpr auto name = "c12_b_list_sum"; static Port<TS<Int>> compose(Wiring &w, Port<PairL2> l) { return wire<NListSum>(w, l); } };
     struct BListFirst { static constexpr auto name = "c12_b_list_first"; static Port<TS<Int>> compose(Wiring &w, Port<PairL2> l) { return tsl_element(l, 0); } };   // returns a leaf of its argument directly
 
+    struct BListPass { static constexpr auto name = "c12_b_list_pass"; static Port<PairL2> compose(Wiring &w, Port<PairL2> l) { (void)w; return l; } };
+    struct BListPass2 { static constexpr auto name = "c12_b_list_pass2"; static Port<PairL2> compose(Wiring &w, Port<PairL2> l) { (void)w; return l; } };
+    // desc: lsp|<kscript>|<a>|<b> : both branches return their structural argument directly; the switch output is the list itself
+    Outcome run_pass_desc(const std::string &desc)
+    {
+        Outcome out;
+        auto parts = split(desc, '|');
+        Run run;
+        run.kscript = split(parts.at(1), ';'); run.iscript = split(parts.at(2), ';'); run.bscript2 = split(parts.at(3), ';');
+        run.cycles = static_cast<int>(run.kscript.size());
+        const long end = run.cycles + 6;
+        std::string exc;
+        g = &run;
+        try
+        {
+            Wiring w;
+            auto key = wire<TsWriter>(w, Int{0});
+            auto a = wire<TsWriter>(w, Int{1});
+            auto b = wire<TsWriter2>(w);
+            stdlib::SwitchCases cases;
+            cases.cases.push_back({Value{Int{1}}, fn<BListPass>()});
+            cases.cases.push_back({Value{Int{2}}, fn<BListPass2>()});
+            Port<PairL2> o = wire<stdlib::switch_>(w, key, cases, stdlib::to_tsl<PairL2>(w, a, b).template as<PairL2>()).template as<PairL2>();
+            wire<EveryProbe<PairL2>>(w, o);
+            GraphBuilder gb = std::move(w).finish();
+            GraphExecutorBuilder eb;
+            eb.graph_builder(std::move(gb)).start_time(MIN_ST).end_time(MIN_ST + TimeDelta{end});
+            auto ex = eb.make_executor();
+            ex.view().run();
+        }
+        catch (const std::exception &e) { exc = e.what(); }
+        g = nullptr;
+        if (!exc.empty()) { out.violation = "run threw: " + exc; return out; }
+        // reference: from the first selection on, the output VALUE is the list of the held values, and it ticks at every selection change
+        // with a held leaf and at every leaf tick
+        std::string ha, hb; long active_key = LONG_MIN; bool selected = false;
+        std::map<long, std::string> want;
+        // (an element that never ticked prints as 0 in the switch's own output list and as <unset> elsewhere: both are spelled 0 here; the values used are non-zero)
+        auto elem = [](const std::string &h) { return h.empty() ? std::string{"0"} : h.substr(1); };
+        for (long c = 0; c < run.cycles; ++c)
+        {
+            const std::string &ta = run.iscript[static_cast<std::size_t>(c)], &tb = run.bscript2[static_cast<std::size_t>(c)];
+            if (!ta.empty()) ha = ta;
+            if (!tb.empty()) hb = tb;
+            bool fresh = false;
+            const std::string &k = run.kscript[static_cast<std::size_t>(c)];
+            if (!k.empty()) { const long kv = std::stol(k.substr(1)); if (kv != active_key) { active_key = kv; fresh = true; selected = true; } }
+            if (!selected) continue;
+            const bool tick = (fresh && (!ha.empty() || !hb.empty())) || !ta.empty() || !tb.empty();
+            if (tick) want[c] = "[" + elem(ha) + ", " + elem(hb) + "]";
+        }
+        std::map<long, std::string> got;
+        std::ostringstream sig;
+        for (auto &sm : run.samples)
+        {
+            std::string v = sm.value; std::size_t pz; while ((pz = v.find("<unset>")) != std::string::npos) v.replace(pz, 7, "0");
+            if (sm.modified && sm.valid) { got[sm.t] = v; ++out.ticks; }
+            sig << (sm.valid ? v : "-") << ",";
+        }
+        out.sig = "lsp#" + sig.str();
+        out.nontrivial = true;
+        if (got != want)
+        {
+            auto show = [](const std::map<long, std::string> &m) { std::string o; for (auto &[c, v] : m) o += " t" + std::to_string(c) + "=" + v; return o.empty() ? std::string{" (none)"} : o; };
+            out.violation = "switch whose branches return their structural argument: output ticks" + show(got) + " but the argument itself, from the selection on, gives" + show(want);
+        }
+        return out;
+    }
+
     // desc: pair|<kscript>|<a script>|<b script>     key 1 -> BPairU, key 2 -> BPairP ;   lst|... the two inputs packed with to_tsl: key 1 -> BListSum, key 2 -> BListFirst
     Outcome run_pair_desc(const std::string &desc)
     {
@@ -429,6 +498,7 @@ namespace
     {
         if (desc.rfind("set", 0) == 0) return run_set_desc(desc);
         if (desc.rfind("pair|", 0) == 0 || desc.rfind("lst|", 0) == 0) return run_pair_desc(desc);
+        if (desc.rfind("lsp|", 0) == 0) return run_pass_desc(desc);
         Outcome out;
         auto parts = split(desc, '|');
         const std::string cfg = parts.at(0);
@@ -600,7 +670,7 @@ void verif_enumerate(verif::Ctx &ctx)
         {
             // two-input branches: key x first input x second input histories
             const auto ks3 = all_scripts({"", "v1", "v2"}), as3 = all_scripts({"", "v7"}), bs3 = all_scripts({"", "v3", "v4"});
-            for (const char *prog : {"pair", "lst"}) for (auto &ks : ks3) for (auto &as : as3) for (auto &bs : bs3)
+            for (const char *prog : {"pair", "lst", "lsp"}) for (auto &ks : ks3) for (auto &as : as3) for (auto &bs : bs3)
             {
                 if (!ctx.next_is_mine()) continue;
                 const std::string desc = std::string{prog} + "|" + ks + "|" + as + "|" + bs;
